@@ -33,6 +33,8 @@ fn main() {
     let seed: u64 = std::env::var("VERIF_SEED").ok().and_then(|s| s.parse().ok()).unwrap_or(0);
     install_quiet_panic_hook();
     let code = match id.as_str() {
+        "C12" => props::c12::run(tier, seed, replay.as_deref()),
+        "C13" => props::c13::run(tier, seed, replay.as_deref()),
         "C15" => props::c15::run(tier, seed, replay.as_deref()),
         _ => {
             eprintln!("unknown property {id}");
